@@ -1709,8 +1709,8 @@ func Run(cfg vh.Config) (*vh.Result, error) {
 			}
 		}
 		info, err := vh.WriteShard(cfg.OutDir, vh.Shard{
-			Name: fmt.Sprintf("C01_%d", k), Imports: "From Verif Require Import Base Transform Match CorrC01.",
-			CaseType: "CorrC01.case", MismatchF: "CorrC01.mismatches", Terms: rn.terms[i:j], Cases: rn.cases[i:j],
+			Name: fmt.Sprintf("C01_%d", k), Imports: "From Verif Require Import Base Transform Match CorrC01.\nFrom VerifGen Require Import FactsC14.",
+			CaseType: "CorrC01.case", MismatchF: "CorrC01.mismatches FactsC14.lower_table", Terms: rn.terms[i:j], Cases: rn.cases[i:j],
 			Prelude: strings.Join(prelude, "\n"),
 		})
 		if err != nil {
